@@ -73,7 +73,7 @@ def layouts(max_samples, max_plates, max_size, max_total):
 LOOKALIKE = ["P1", "P1 ", " P1", "p1", "P1\t", "P1  "]  # plate labels equal up to blanks / case are different plates
 
 
-def build_rows(layout, n_obs, pool="mixed", all_observed=False, mix=None, lookalike=False):
+def build_rows(layout, n_obs, pool="mixed", all_observed=False, mix=None, lookalike=False, order=None):
     """layout: list (per sample) of unobserved plate sizes; n_obs rows go to an
     observed plate 'obs' (cycling over the samples)."""
     P = POOL_COMBO_ONLY if pool == "combo" else (POOL[6:] + POOL[:6] if pool == "mixed5" else (POOL_TRIPLE if pool == "triple" else POOL))
@@ -99,6 +99,14 @@ def build_rows(layout, n_obs, pool="mixed", all_observed=False, mix=None, lookal
         for k, s in enumerate(mix):
             rows.append((f"s{s}", "pmix", P[(k + 3) % len(P)], round(0.05 + 0.1 * g, 4), all_observed))
             g += 1
+    if order == "reversed":
+        rows = rows[::-1]
+    elif order == "roundrobin":
+        # rows of the samples (and thereby of the plates) interleaved: s0, s1, s2, s0, s1, ...
+        per = {}
+        for r in rows:
+            per.setdefault(r[0], []).append(r)
+        rows = [rs[k] for k in range(max(len(v) for v in per.values())) for rs in per.values() if k < len(rs)]
     return rows
 
 
@@ -110,6 +118,7 @@ def _gen_ops():
             ops.append(("pairwise", {"subset_size": subset, "anchor_size": anchor}))
     ops.append(("permutation", {"force": None}))
     ops.append(("permutation", {"force": ["p0"]}))
+    ops.append(("permutation", {"force": ["p1", "p0", "p1"]}))  # a name listed twice, an order that is not sorted
     for m in (1, 2, 3):
         ops.append(("segregate", {"max_plate_size": m}))
     return ops
@@ -207,6 +216,17 @@ def plan(tier, prop):
                 items.append({"op": "holdout_plate", "params": {"fraction": f}, "layout": lay, "n_obs": 2, "pool": "mixed", "lookalike": True})
             items.append({"op": "permutation", "params": {"force": None}, "layout": lay, "n_obs": 0, "pool": "mixed", "lookalike": True})
             items.append({"op": "merge_min", "params": {"min_size": 2}, "layout": lay, "n_obs": 0, "pool": "mixed", "lookalike": True})
+    # row order: the same screens with their rows interleaved across samples / reversed (not grouped by sample or plate)
+    for lay in lay_gen:
+        total = sum(sum(t) for t in lay)
+        if len(lay) >= 2 and 3 <= total <= (4 if tier == "quick" else 5):
+            for order in ("roundrobin", "reversed"):
+                for kind, params in (("segregate", {"max_plate_size": 1}), ("segregate", {"max_plate_size": 2}), ("pairwise", {"subset_size": 1, "anchor_size": 0}),
+                                     ("permutation", {"force": None}), ("merge_min", {"min_size": 2}), ("fixed", {"plate_size": 2}), ("fixed", {"plate_size": 1}),
+                                     ("n_per_sample", {"min_n_cell_line_plates": 2}), ("optimal", {}), ("ensemble", {"min_size": 2, "n_iterations": 1, "min_n_cell_line_plates": 1})):
+                    if kind == "permutation" and total > perm_rows:
+                        continue
+                    items.append({"op": kind, "params": params, "layout": lay, "n_obs": 1 if order == "reversed" else 0, "pool": "mixed", "order": order})
     # histories: results recorded in place before the operation; a generator run again after one of its plates was revealed
     for lay in lay_gen:
         total = sum(sum(t) for t in lay)
@@ -284,7 +304,7 @@ def execute(item, chooser):
     """Run one operation on one input with one answer sequence.
     Returns (input_screen, outputs or None, exception or None)."""
     kind = item["op"]
-    rows = build_rows(item["layout"], item["n_obs"], item["pool"], all_observed=(kind == "sparse_cover"), mix=item.get("mix"), lookalike=bool(item.get("lookalike")))
+    rows = build_rows(item["layout"], item["n_obs"], item["pool"], all_observed=(kind == "sparse_cover"), mix=item.get("mix"), lookalike=bool(item.get("lookalike")), order=item.get("order"))
     kw = {}
     if item.get("mask_dtype"):
         # the observation mask given as 0/1 integers (a pandas column, an HDF5 uint8 dataset) instead of booleans
@@ -615,7 +635,7 @@ def run_item(prop, item, col):
             continue
         case = {"item": item, "choices": ch.choices}
         if col.evaluations <= 1:
-            col.sample({"op": item["op"], "params": item["params"], "input_rows": build_rows(item["layout"], item["n_obs"], item["pool"], mix=item.get("mix"), lookalike=bool(item.get("lookalike"))),
+            col.sample({"op": item["op"], "params": item["params"], "input_rows": build_rows(item["layout"], item["n_obs"], item["pool"], mix=item.get("mix"), lookalike=bool(item.get("lookalike")), order=item.get("order")),
                         "choices": ch.choices})
         res = oracle(item, before, out)
         outs = out if isinstance(out, tuple) else (out,)
@@ -640,7 +660,7 @@ def replay(prop, case, col):
         print(f"replay: operation refused: {short_exc(exc)}")
         return
     print("input rows:")
-    for r in build_rows(item["layout"], item["n_obs"], item["pool"], mix=item.get("mix"), lookalike=bool(item.get("lookalike"))):
+    for r in build_rows(item["layout"], item["n_obs"], item["pool"], mix=item.get("mix"), lookalike=bool(item.get("lookalike")), order=item.get("order")):
         print("   ", r)
     for o in out if isinstance(out, tuple) else (out,):
         print("output rows:")
